@@ -274,7 +274,9 @@ class CommentStyle:
         ):
             for i, line in enumerate(lines):
                 end = i
-                if line.endswith(cls.MULTI_LINE.end):
+                # Trailing whitespace after the closing delimiter still ends
+                # the comment.
+                if line.rstrip().endswith(cls.MULTI_LINE.end):
                     break
             else:
                 raise CommentParseError("Comment block never delimits")
